@@ -40,8 +40,243 @@ def _consts_in_rv(rv, out):
         pass
 
 
+# ---------------------------------------------------------------------------------------------
+# constant tables: `[("->", false, ..), ("f()", true, ..)].into_iter().find_map(|(key, ..)| obj.get(key) ..)`
+#
+# The string an operand denotes may be a component of an element of a table of constants that is iterated.  The walk
+# goes backwards from the operand with a stack of pending selectors - ('f', i) = field i of the value, 'elem' = an
+# element of the value - through copies, references and projections, from a closure parameter to the receiver of the
+# adaptor the closure is handed to (an element of it for iterator adaptors, the payload for Option / Result adaptors),
+# from a captured variable to the parent's local, through iterator adaptors that hand the elements on, and from the
+# result of `next` / `find` / `get` .. to an element of the receiver, until it arrives at aggregates: an array pops
+# 'elem', a tuple / struct pops its field.  Only when EVERY way back ends in a string constant is the set returned.
+
+_SAME_ELEMENTS = {      # the result holds (some of) the receiver's elements, unchanged
+    'into_iter', 'iter', 'iter_mut', 'copied', 'cloned', 'by_ref', 'rev', 'skip', 'take', 'peekable', 'skip_while',
+    'take_while', 'filter', 'step_by', 'fuse', 'as_slice', 'as_mut_slice', 'as_ref', 'as_mut', 'deref', 'deref_mut',
+    'borrow', 'borrow_mut', 'clone', 'to_vec', 'into_vec', 'to_owned', 'into_boxed_slice', 'inspect', 'unsize', 'into',
+    'from', 'new', 'unwrap', 'expect', 'as_str',
+}
+_ONE_ELEMENT = {        # the result is (an Option of) one element of the receiver
+    'next', 'next_back', 'find', 'last', 'nth', 'first', 'get', 'peek', 'min', 'max', 'min_by', 'max_by', 'min_by_key',
+    'max_by_key', 'index', 'get_unchecked', 'next_if',
+}
+_ACCUMULATING = {'fold', 'try_fold', 'rfold', 'try_rfold', 'scan'}     # closure(acc, element): only the last is one
+_WRAPPERS = ('core::option::Option', 'core::result::Result', 'core::ops::control_flow::ControlFlow')
+
+
+class _PromotedBody:
+    """A promoted constant's MIR, shaped like a function for the def-use index."""
+    kind = 'promoted'
+    parent = None
+
+    def __init__(self, owner, i):
+        self.p = '%s::promoted[%d]' % (owner.p, i)
+        self.body = owner.promoted[i]
+        self.blocks = self.body['blocks']
+        self.promoted = []
+        self._du = None
+        self.ret_locals = frozenset()
+
+    def stmts(self):
+        for i, b in enumerate(self.blocks):
+            for k, s in enumerate(b['st']):
+                yield i, k, s
+
+    def terms(self):
+        for i, b in enumerate(self.blocks):
+            if b.get('term'):
+                yield i, b['term']
+
+
+def _parent_of(prog, fn):
+    par = prog.fns.get(fn.parent) if fn.parent else None
+    home = getattr(prog, 'helper_home', None) or {}
+    p_ = fn.parent
+    while par is None and p_ in home:
+        p_ = home[p_]
+        par = prog.fns.get(p_)
+    return par
+
+
+def table_element_strings(prog, fn, operand, limit=400):
+    """The string constants `operand` can denote as (a component of) an element of a constant table that is iterated or
+    indexed; the empty set when the operand is anything else, or when one way back does not end in a string constant."""
+    from .defuse import du
+    out = set()
+    state = {'steps': 0, 'table': False}
+    seen = set()
+
+    class _No(Exception):
+        pass
+
+    def operand_(f, o, sel):
+        if o['k'] == 'const':
+            if 'str' in o:
+                if sel:
+                    raise _No()
+                out.add(o['str'])
+                return
+            if 'promoted' in o and o['promoted'] < len(f.promoted):
+                local_(_PromotedBody(f, o['promoted']), 0, sel)
+                return
+            raise _No()
+        if o['k'] not in ('copy', 'move'):
+            raise _No()
+        place_(f, o['pl'], sel)
+
+    def place_(f, pl, sel):
+        inner = []
+        upvar = None
+        for pe in pl.get('p', []):
+            k = pe['k']
+            if k == 'field':
+                if 'closure' in pe:
+                    upvar = pe.get('n')
+                    inner = []
+                    continue
+                if pe.get('adt') in _WRAPPERS:
+                    continue        # the payload of Some / Ok / Continue: wrappers are looked through
+                inner.append(('f', pe['i']))
+            elif k in ('index', 'constindex', 'const_index', 'subslice'):
+                if k != 'subslice':
+                    inner.append('elem')
+            elif k in ('deref', 'downcast', 'opaque', 'subtype', 'unwrap_unsafe_binder'):
+                continue
+            else:
+                raise _No()
+        sel = tuple(inner) + tuple(sel)
+        if upvar is not None:
+            par = _parent_of(prog, f)
+            if par is None or f.kind != 'closure' or pl['l'] != 1:
+                raise _No()
+            name = str(upvar).lstrip('*')
+            ls = [d_['pl']['l'] for d_ in par.body['dbg'] if d_['n'] == name and 'p' not in d_['pl']]
+            if len(ls) != 1:
+                raise _No()
+            local_(par, ls[0], sel)
+            return
+        local_(f, pl['l'], sel)
+
+    def closure_param_(f, l, sel):
+        par = _parent_of(prog, f)
+        if par is None:
+            raise _No()
+        # the call the closure itself is an argument of (`collect` after `map(closure)` names it in its type only)
+        sites = [(bb, t) for bb, t in par.calls() if f.p in (t['f'].get('closures') or []) and t['args']
+                 and any(a.get('k') in ('copy', 'move') and '{closure@' in par.local_ty(a['pl']['l'])
+                         for a in t['args'][1:])]
+        if len(sites) != 1:
+            raise _No()
+        bb, t = sites[0]
+        name = t['f'].get('name') or ''
+        if t['f'].get('self_adt') in _WRAPPERS:
+            operand_(par, t['args'][0], sel)            # Option::map(|payload| ..): the payload of the receiver
+            return
+        if name in _ACCUMULATING and l != f.body['argc']:
+            raise _No()
+        operand_(par, t['args'][0], ('elem',) + tuple(sel))
+
+    def local_(f, l, sel):
+        state['steps'] += 1
+        key = (f.p, l, sel)
+        if state['steps'] > limit or len(sel) > 8:
+            raise _No()
+        if key in seen:
+            return
+        seen.add(key)
+        d = du(f)
+        if 1 <= l <= d.argc:
+            if f.kind == 'closure' and l >= 2:
+                closure_param_(f, l, sel)
+                return
+            raise _No()
+        defs = d.defs.get(l, [])
+        if not defs:
+            raise _No()
+        for df in defs:
+            if df['kind'] in ('store', 'store_call'):
+                continue
+            if df['kind'] == 'assign':
+                rvalue_(f, df['rv'], sel)
+            elif df['kind'] == 'call':
+                call_(f, df['term'], sel)
+            else:
+                raise _No()
+
+    def rvalue_(f, rv, sel):
+        k = rv['k']
+        if k == 'use':
+            operand_(f, rv['op'], sel)
+        elif k in ('ref', 'rawptr'):
+            place_(f, rv['pl'], sel)
+        elif k == 'cast':
+            if not (rv['ck'].startswith('PointerCoercion') or rv['ck'] in ('PtrToPtr', 'Transmute', 'Subtype')):
+                raise _No()
+            operand_(f, rv['op'], sel)
+        elif k == 'repeat':
+            if not sel or sel[0] != 'elem':
+                raise _No()
+            state['table'] = True
+            operand_(f, rv['op'], sel[1:])
+        elif k == 'agg':
+            ak = rv.get('ak')
+            if ak == 'array':
+                if not sel or sel[0] != 'elem':
+                    raise _No()
+                state['table'] = True
+                for o in rv['ops']:
+                    operand_(f, o, sel[1:])
+            elif ak in ('tuple', 'adt'):
+                if ak == 'adt' and rv.get('adt') in _WRAPPERS:
+                    if rv.get('var') in ('None',) or not rv['ops']:
+                        return
+                    operand_(f, rv['ops'][0], sel)
+                    return
+                if not sel or sel[0] == 'elem' or sel[0][1] >= len(rv['ops']):
+                    raise _No()
+                operand_(f, rv['ops'][sel[0][1]], sel[1:])
+            else:
+                raise _No()
+        else:
+            raise _No()
+
+    def call_(f, t, sel):
+        name = t['f'].get('name') or ''
+        args = t['args']
+        if not args:
+            raise _No()
+        if name == 'enumerate':
+            # elements are (index, element of the receiver)
+            if len(sel) < 2 or sel[0] != 'elem' or sel[1] != ('f', 1):
+                raise _No()
+            operand_(f, args[0], ('elem',) + tuple(sel[2:]))
+        elif name == 'zip' and len(args) == 2:
+            if len(sel) < 2 or sel[0] != 'elem' or sel[1] not in (('f', 0), ('f', 1)):
+                raise _No()
+            operand_(f, args[sel[1][1]], ('elem',) + tuple(sel[2:]))
+        elif name == 'chain' and len(args) == 2:
+            operand_(f, args[0], sel)
+            operand_(f, args[1], sel)
+        elif name in _ONE_ELEMENT and t['f'].get('self_adt') not in _WRAPPERS:
+            operand_(f, args[0], ('elem',) + tuple(sel))
+        elif name in _SAME_ELEMENTS or (t['f'].get('self_adt') in _WRAPPERS and name in (
+                'copied', 'cloned', 'as_ref', 'as_mut', 'as_deref', 'unwrap', 'expect', 'unwrap_or_default', 'branch',
+                'ok', 'take', 'filter')):
+            operand_(f, args[0], sel)
+        else:
+            raise _No()
+
+    try:
+        operand_(fn, operand, ())
+    except _No:
+        return set()
+    return out if state['table'] else set()
+
+
 def string_uses(prog, fn, tr=None, with_closures=True):
-    """All (string constant, callee short, arg index, bb) where a string literal is an argument of a call."""
+    """All (string constant, callee short, arg index, bb) where a string literal is an argument of a call - the literal
+    itself, or an element of a constant table of literals that is iterated (see table_element_strings)."""
     tr = tr or Tracer(prog)
     out = []
     fns = [fn] + (prog.closures_of(fn) if with_closures else [])
@@ -49,7 +284,10 @@ def string_uses(prog, fn, tr=None, with_closures=True):
         for bb, t in f.calls():
             cs = callee_short(t)
             for i, a in enumerate(t['args']):
-                for s in const_strings_of_operand(f, a, tr):
+                strs = const_strings_of_operand(f, a, tr)
+                if not strs and a['k'] in ('copy', 'move') and 'str' in f.local_ty(a['pl']['l']).lower():
+                    strs = table_element_strings(prog, f, a)
+                for s in strs:
                     out.append((s, cs, i, f, bb))
     return out
 
